@@ -911,6 +911,48 @@ def oracle_response(ctx, name, res, rep, req_size, base, skeletons, appdocs, rec
     return kind
 
 
+def part_welcome(ctx, app):
+    """MapProxyApp.welcome_response against the generated model (Gen_exc_templates.welcome_response)"""
+    try:
+        import mapproxy.version
+        from mapproxy.wsgiapp import MapProxyApp
+        from mapproxy.util.escape import escape_html
+        version = mapproxy.version.version
+    except Exception as e:  # noqa
+        ctx.problem('harness', 'cannot import wsgiapp: %r' % (e,))
+        return
+
+    class NoDemo(object):
+        handlers = {}
+    terms, descr = [], []
+    for i in range(ctx.n(60, 600)):
+        url = gen_string(ctx.rng)
+        demo = ctx.rng.random() < 0.8
+        arg = escape_html(url) if i % 2 == 0 else url          # the function itself is modelled for any argument
+        try:
+            resp = MapProxyApp.welcome_response(app if demo else NoDemo(), arg)
+            body, ct = resp.response, resp.headers.get('Content-type', '')
+        except Exception as e:  # noqa
+            ctx.fail('welcome,raised', 'welcome_response raised %r' % (e,), {'script_url_code_points': cps(arg)})
+            continue
+        ctx.case(('welcome', arg, demo), any(c in url for c in SPECIAL))
+        ctx.count('welcome:demo=%s' % demo)
+        if not isinstance(body, str) or not ct.startswith('text/html'):
+            ctx.fail('welcome,type', 'welcome_response answers %r / %r' % (type(body).__name__, ct), {'script_url_code_points': cps(arg)})
+            continue
+        if i % 2 == 0:
+            sk = py_skeleton(py_tokenize(body))
+            ref = py_skeleton(py_tokenize(MapProxyApp.welcome_response(app if demo else NoDemo(), 'X').response))
+            if len(sk) != len(ref) or [t is None for t in sk] != [t is None for t in ref]:
+                ctx.fail('welcome,structure', 'welcome page structure depends on the URL %r' % (url,), {'url_code_points': cps(url)})
+        terms.append('(%s, %s, %s, %s)' % (slist(version), 'true' if demo else 'false', slist(arg), slist(body)))
+        descr.append({'version': version, 'demo': demo, 'script_url': cps(arg), 'implementation_html': cps(body)})
+    ctx.corr_check(
+        'welcome', 'Escape Gen_exc_templates', 'list Z * bool * list Z * list Z', terms,
+        "fun c => let '(v, demo, url, html) := c in str_eqb (welcome_response v demo url) html",
+        lambda i: descr[i], shard=150)
+
+
 def part_app(ctx, skeletons):
     logging.disable(logging.CRITICAL)
     try:
@@ -919,6 +961,7 @@ def part_app(ctx, skeletons):
         import traceback
         ctx.problem('harness', 'cannot build the application: %r' % (e,), traceback.format_exc())
         return
+    part_welcome(ctx, app)
     bases = base_requests()
     appdocs = []
     stream = []
